@@ -127,3 +127,61 @@ Example C05_translated_example :
   let curr : env := fun i => match i with O => -128 | _ => 2 end in
   PyEvalGen.eval_value en e = 7 /\ PyEvalGen.eval_assign curr lhs 15 curr 0%nat = -116.
 Proof. vm_compute. split; reflexivity. Qed.
+
+(* ================= added after the coverage audit (docs/COVERAGE_AUDIT.md) ================= *)
+From V.Model Require Data TbCast.
+From V.Proofs Require TbCastP.
+
+(* "leaving all other bits untouched", for whole signals: ctx.set(target, v) changes no signal the target does not name —
+   in particular none of the signals its offsets and selectors read *)
+Theorem C05_tb_write_frame ss curr lhs : (forall i, wf_shape (ss i) = true) ->
+  wf_lhs lhs = true -> lin lhs = true -> sig_ok ss lhs -> sel_ok curr lhs ->
+  forall v nx i, normalised ss nx -> ~ In i (sigs_of lhs) -> tb_set curr lhs v nx i = nx i.
+Proof. exact (TbCastP.tb_write_frame ss curr lhs). Qed.
+Print Assumptions C05_tb_write_frame.
+
+(* --- values of shape-castable objects round-trip through their const / from_bits conversion --- *)
+(* lib.data layouts: ctx.set(sig, init) stores the bits of layout.const(init) and ctx.get(sig) returns the constant with
+   exactly those bits (= layout.const(init)), for every well-formed layout and every accepted initialiser *)
+Theorem C05_layout_roundtrip l i st : Data.wf_layout l = true -> TbCast.tb_set_layout l i = Data.Okz st ->
+  Data.layout_const l i = Data.Okz st /\ TbCast.tb_get_layout l st = Data.Ok l st /\
+  Data.as_bits (TbCast.tb_get_layout l st) = Data.Okz st.
+Proof. exact (TbCastP.layout_roundtrip l i st). Qed.
+Print Assumptions C05_layout_roundtrip.
+Theorem C05_layout_set_rejects l i c : TbCast.tb_set_layout l i = Data.Errz c <-> Data.layout_const l i = Data.Errz c.
+Proof. exact (TbCastP.layout_set_rejects l i c). Qed.
+Print Assumptions C05_layout_set_rejects.
+Theorem C05_layout_get_any l raw : Data.wf_layout l = true ->
+  TbCast.tb_get_layout l (TbCast.sig_store (TbCast.layout_sig_shape l) raw) = Data.Ok l (raw mod 2 ^ Data.layout_size l).
+Proof. exact (TbCastP.layout_get_any l raw). Qed.
+Print Assumptions C05_layout_get_any.
+
+(* shaped enumerations: a member whose value fits the shape round-trips; ctx.get always returns a member holding exactly the
+   signal's value; a member that does not fit (the class definition only warns) does not round-trip *)
+Theorem C05_enum_roundtrip s ms m : wf_shape s = true -> In m ms -> in_range s m ->
+  TbCast.tb_set_enum s ms m = Data.Okz m /\ TbCast.tb_get_enum ms m = Data.Okz m.
+Proof. exact (TbCastP.enum_roundtrip s ms m). Qed.
+Print Assumptions C05_enum_roundtrip.
+Theorem C05_enum_get_member ms stored m : TbCast.tb_get_enum ms stored = Data.Okz m -> m = stored /\ In m ms.
+Proof. exact (TbCastP.enum_get_member ms stored m). Qed.
+Print Assumptions C05_enum_get_member.
+Theorem C05_enum_roundtrip_refuted : exists s ms m st, wf_shape s = true /\ In m ms /\
+  TbCast.tb_set_enum s ms m = Data.Okz st /\ TbCast.tb_get_enum ms st <> Data.Okz m.
+Proof. exact TbCastP.enum_roundtrip_refuted. Qed.
+Print Assumptions C05_enum_roundtrip_refuted.
+
+(* a user-defined shape-castable (const(obj) = Const(obj + k, w), from_bits(raw) = raw - k) *)
+Theorem C05_offset_roundtrip w k obj : 0 <= w -> 0 <= obj + k < 2 ^ w ->
+  TbCast.tb_get_offset k (TbCast.tb_set_offset w k obj) = obj.
+Proof. exact (TbCastP.offset_roundtrip w k obj). Qed.
+Print Assumptions C05_offset_roundtrip.
+
+(* non-vacuity: a struct {f0: unsigned(3), f1: signed(2)} initialised with {f1: -1, f0: 5} holds 0b11_101 *)
+Example C05_roundtrip_example :
+  let l := Data.Struct [(0, Data.Leaf (Sh 3 false)); (1, Data.Leaf (Sh 2 true))] in
+  Data.wf_layout l = true /\
+  TbCast.tb_set_layout l (Data.IMap [(1, Data.IVal (-1)); (0, Data.IVal 5)]) = Data.Okz 29 /\
+  TbCast.tb_get_layout l 29 = Data.Ok l 29 /\
+  TbCast.tb_set_enum (Sh 2 true) [-2; 1] (-2) = Data.Okz (-2) /\ TbCast.tb_get_enum [-2; 1] (-2) = Data.Okz (-2) /\
+  TbCast.tb_get_offset 3 (TbCast.tb_set_offset 4 3 9) = 9.
+Proof. vm_compute. repeat split. Qed.
